@@ -41,4 +41,25 @@ def replay(info, ce):
         k = m // 2 - np.argmax(np.abs(S), axis=0)
         if np.max(np.abs(f - k / (m * 0.01))) > 1e-9:
             return dict(status='confirmed', observed={'n': n}, detail='dominant-frequency axis is not k/(N dt)', input={'x': x.tolist()})
+    # dominant-frequency axis over MANY (rows, dt) combinations (the property quantifies over all lengths and all dt): row r of a
+    # transform with `rows` rows is the frequency (rows - r)/(2 rows dt), through both entry points
+    import eqsig
+    for dt in (1.0, 0.5, 0.1, 0.02, 0.01, 0.005, 0.004):
+        for rows in range(2, 260):
+            S = np.zeros((rows, 3), dtype=complex)
+            hot = [0, rows // 2, rows - 1]
+            for c, r in enumerate(hot):
+                S[r, c] = 1.0
+            want = np.array([(rows - r) / (2 * rows * dt) for r in hot])
+            got = np.asarray(stockwell.get_max_tifq_vals_freq(S, dt))
+            if got.shape != want.shape or np.max(np.abs(got - want)) > 1e-9 * np.max(want):
+                return dict(status='confirmed', observed={'rows': rows, 'dt': dt, 'got': got.tolist(), 'expected': want.tolist()},
+                            detail='get_max_tifq_vals_freq: the frequency reported for row r is not (rows - r)/(2 rows dt) for a transform with %d rows (records of %d or %d samples), dt=%g' % (rows, 2 * rows, 2 * rows + 1, dt),
+                            input={'rows': rows, 'dt': dt, 'hot_rows': hot})
+            a = eqsig.AccSignal(np.zeros(2 * rows), dt)
+            a.swtf = S
+            got = np.asarray(stockwell.get_max_stockwell_freq(a))
+            if got.shape != want.shape or np.max(np.abs(got - want)) > 1e-9 * np.max(want):
+                return dict(status='confirmed', observed={'rows': rows, 'dt': dt, 'got': got.tolist(), 'expected': want.tolist()},
+                            detail='get_max_stockwell_freq: wrong frequency axis for a transform with %d rows, dt=%g' % (rows, dt), input={'rows': rows, 'dt': dt, 'hot_rows': hot})
     return dict(status='not-reproduced', detail='real Stockwell functions agree with the independent evaluation on the battery')
